@@ -149,6 +149,16 @@ class Sim:
         if t == "adversary":
             self._adversary(ft["action"], path)
             return None
+        if t == "reenter":
+            # the user callback re-enters the library (a constructor that parses / instantiates something itself)
+            hook = getattr(self, "reenter_hook", None)
+            if hook is not None:
+                self.suspended += 1  # the nested call's own seam calls are not fault sites of the outer plan
+                try:
+                    hook(ft.get("what", "inst"))
+                finally:
+                    self.suspended -= 1
+            return None
         raise AssertionError("unknown fault " + t)
 
     def _adversary(self, action, path):
